@@ -23,7 +23,7 @@ def load_expect(path):
         exp[parts[0]] = {"class": parts[1] if len(parts) > 1 else "?", "why": parts[2] if len(parts) > 2 else ""}
     return exp
 
-def facts_step(kinds, expect_file, bad_classes=("ORDER-SENSITIVE", "SHARED-STATE")):
+def facts_step(kinds, expect_file, bad_classes=("ORDER-SENSITIVE", "SHARED-STATE"), known_classes=None):
     def step(pid, cfg, tier, seed, report, g):
         ok, o, binp = build_extractor(g)
         if not ok:
@@ -44,8 +44,52 @@ def facts_step(kinds, expect_file, bad_classes=("ORDER-SENSITIVE", "SHARED-STATE
                                               "facts": len(facts), "by_class": hist, "unreviewed": new, "vanished": gone}
         for f in new:
             report["problems"].append(f"unreviewed source site (not in extract/{expect_file}): {f}")
+        findings = [x for x in g["load_findings"]() if x["property"] == pid]
         for f in bad:
-            report["problems"].append(f"source site classified {exp[f]['class']}: {f} ({exp[f]['why']})")
+            # a bad site is a known finding when known_findings.txt lists its key (file:function name)
+            site = f.split()[1]
+            known = [x for x in findings if x["key"] == site]
+            if known:
+                report["known"].add((site, known[0]["text"]))
+            else:
+                report["problems"].append(f"source site classified {exp[f]['class']}: {f} ({exp[f]['why']})")
         for e in gone:
             report["problems"].append(f"reviewed source site no longer present (re-review extract/{expect_file}): {e}")
+    return step
+
+
+def race_step(n=8):
+    """thorough tier: the concurrent runs of the `real` component under the Go race detector; a race
+    whose accesses are not all in the known logger global (or in the harness's own cross-wired logger,
+    a consequence of it) is reported with the detector's report as replay."""
+    import re
+    def step(pid, cfg, tier, seed, report, g):
+        if tier != "thorough":
+            report["coverage"]["race_detector"] = "thorough tier only"
+            return
+        env = dict(g["GOENV"], VERIF_REAL_MODE="isolation")
+        binp = os.path.join(V, ".work", "verifharness-race")
+        src = os.path.join(V, "harness")
+        subprocess.run(["cp", "/repo/go.sum", os.path.join(src, "go.sum")])
+        b = subprocess.run(["go", "build", "-race", "-tags", "verif", "-o", binp, "."], cwd=src, env=env, capture_output=True, text=True)
+        if b.returncode != 0:
+            report["coverage"]["race_detector"] = "race build unavailable: " + (b.stdout + b.stderr)[-300:]
+            return
+        outp = os.path.join(V, ".work", f"{pid}-race.out")
+        r = subprocess.run([binp, "real", "gen", "-seed", str(seed), "-n", str(n), "-out", outp], env=env, capture_output=True, text=True, timeout=3000)
+        blocks = r.stderr.split("WARNING: DATA RACE")[1:]
+        unknown = []
+        for blk in blocks:
+            tops = re.findall(r"(?:Write|Read|Previous write|Previous read) at [^\n]*\n  [^\n]*\n\s+(/\S+:\d+)", blk)
+            if not all(("/pkg/engine/logging/logger.go" in t) or t.startswith("/verif/harness/") or "/src/runtime/" in t for t in tops):
+                unknown.append(blk[:3000])
+        report["coverage"]["race_detector"] = {"races_reported": len(blocks), "outside_known_logger_global": len(unknown), "runs": n}
+        if unknown:
+            rp = g["write_replay"](pid, {"property": pid, "kind": "data-race", "race_report": unknown[0],
+                                         "how_to_replay": f"cd harness && go build -race -tags verif -o ../.work/verifharness-race . && VERIF_REAL_MODE=isolation ../.work/verifharness-race real gen -seed {seed} -n {n} -out /dev/null"})
+            report["violations"].append(rp)
+        elif blocks:
+            fs = [x for x in g["load_findings"]() if x["property"] == pid and x["key"] == "pkg/engine/logging/logger.go:InitLoggers"]
+            if fs:
+                report["known"].add((fs[0]["key"], fs[0]["text"]))
     return step
